@@ -146,6 +146,25 @@ def _history(pyrepseq, nn):
     pyrepseq.hash_based(list(every), max_edits=3, custom_distance="hamming")
     pyrepseq.symdel(list(every), max_edits=3)
     pyrepseq.kdtree(list(every), max_edits=3)
+    # other metric OBJECTS with other weights, constructed and used: weights kept anywhere but on the instance would leak into the scenario's metric
+    try:
+        from pyrepseq.metric import tcr_metric, Levenshtein, WeightedLevenshtein
+        from models import pd_model as _pdm
+        tab = _pdm.DataFrame({"TRAV": ["TRAV1*01", "TRAV2*01"], "CDR3A": ["CA", "CF"], "TRBV": ["TRBV1*01", "TRBV2*01"], "CDR3B": ["CAS", "CS"]}, index=[5, 6])
+        from models import misc_model as _mm
+        had = _mm.TR_SEQ.get("table")
+        if had is None:
+            _mm.TR_SEQ["table"] = lambda gene: {"CDR1-IMGT": "AA", "CDR2-IMGT": "C"}
+        for mt in (tcr_metric.AlphaCdr3Levenshtein(insertion_weight=2), tcr_metric.Cdr3Levenshtein(alpha_weight=4, beta_weight=6),
+                   tcr_metric.BetaCdrLevenshtein(cdr3_weight=9),
+                   tcr_metric.CdrLevenshtein(3, 2, 5, alpha_weight=7, beta_weight=11, cdr1_weight=13, cdr2_weight=17, cdr3_weight=19)):   # non-default weights LAST
+            mt.calc_cdist_matrix(tab, tab)
+        if had is None:
+            _mm.TR_SEQ["table"] = None
+        WeightedLevenshtein(3, 2, 4).calc_cdist_matrix(["AC", "C"], ["A"])
+        Levenshtein().calc_pdist_vector(["AC", "C", "A"])
+    except ImportError:
+        pass
     try:
         pyrepseq.kdtree(["AA"], max_edits=0)
     except Exception:
@@ -551,6 +570,22 @@ def _replay(name):
                 return False, f"{name}: after a call on {n} sequences the caller's option dictionaries changed from {before!r} to {(lk, ck)!r}"
             base1 = [np.asarray(x).tolist() for x in distance.hierarchical_clustering(list(small))]
             return base0 == base1, f"{name}: hierarchical_clustering of {small} gave {base0[0]!r} before and {base1[0]!r} after a call on {n} sequences"
+        if name == "CdrLevenshtein.calc_cdist_matrix":
+            from pyrepseq.metric import tcr_metric
+            df = pd.DataFrame({"TRAV": ["TRAV1-1*01", "TRAV5*01"], "CDR3A": ["CAV" + S(0), "CAL" + S(1)], "TRBV": ["TRBV9*01", "TRBV10-1*01"],
+                               "CDR3B": ["CASSF", "CASRF"]}, index=[3, 3])
+            m = tcr_metric.CdrLevenshtein(2, 1, 1)
+            m2 = tcr_metric.Cdr3Levenshtein(alpha_weight=3, beta_weight=2)
+            before = df.copy(deep=True)
+            r0, s0 = np.asarray(m.calc_cdist_matrix(df, df)).tolist(), np.asarray(m2.calc_cdist_matrix(df, df)).tolist()
+            tcr_metric.CdrLevenshtein(3, 2, 5, alpha_weight=7, beta_weight=11, cdr1_weight=13, cdr2_weight=17, cdr3_weight=19).calc_cdist_matrix(df, df)
+            tcr_metric.BetaCdr3Levenshtein(insertion_weight=4)
+            distance.pcDelta(df[["TRAV", "CDR3A", "TRBV", "CDR3B"]].reset_index(drop=True), bins=np.arange(0, 30))
+            r1, s1 = np.asarray(m.calc_cdist_matrix(df, df)).tolist(), np.asarray(m2.calc_cdist_matrix(df, df)).tolist()
+            if not df.equals(before):
+                return False, f"{name}: the caller's table was modified"
+            return r0 == r1 and s0 == s1, (f"{name}: the same metric objects on the same table gave {r0!r} / {s0!r} before and {r1!r} / {s1!r} after other "
+                                           "metrics were constructed and used")
         if name not in calls:
             return True, "no real-stack counterpart (wiring scenario)"
         # value in a FRESH interpreter (no history at all)
